@@ -42,6 +42,42 @@ Proof.
     + simpl. destruct (is_open c); simpl; rewrite (IH k H); reflexivity.
 Qed.
 
+Lemma nth_error_set_nth_same k v l :
+  nth_error l k <> None -> nth_error (set_nth k v l) k = Some v.
+Proof.
+  revert k. induction l as [|c l IH]; intros k H.
+  - destruct k; exfalso; apply H; reflexivity.
+  - destruct k as [|k]; simpl; [reflexivity|]. apply IH. exact H.
+Qed.
+
+Lemma nth_error_set_nth_other k j v l :
+  j <> k -> nth_error (set_nth k v l) j = nth_error l j.
+Proof.
+  revert k j. induction l as [|c l IH]; intros k j H.
+  - destruct k; reflexivity.
+  - destruct k as [|k]; destruct j as [|j]; simpl; try reflexivity.
+    + exfalso; apply H; reflexivity.
+    + apply IH. intro E. apply H. rewrite E. reflexivity.
+Qed.
+
+Lemma set_nth_length k v l : List.length (set_nth k v l) = List.length l.
+Proof.
+  revert k. induction l as [|c l IH]; intros k; [destruct k; reflexivity|].
+  destruct k as [|k]; simpl; [reflexivity|]. rewrite IH. reflexivity.
+Qed.
+
+(* an open connection (spawned or registered) that ends *)
+Lemma filter_set_nth_end k l c v :
+  nth_error l k = Some c -> is_open c = true -> is_open v = false ->
+  List.length (filter is_open l) = S (List.length (filter is_open (set_nth k v l))).
+Proof.
+  intros H Hc Hv. revert k H. induction l as [|c0 l IH]; intros k H.
+  - destruct k; discriminate H.
+  - destruct k as [|k]; simpl in H.
+    + inversion H; subst c0. simpl. rewrite Hc, Hv. reflexivity.
+    + simpl. destruct (is_open c0); simpl; rewrite (IH k H); reflexivity.
+Qed.
+
 Lemma filter_set_nth_reg k l :
   nth_error l k = Some CSpawned ->
   List.length (filter is_open (set_nth k COpen l)) = List.length (filter is_open l).
@@ -77,8 +113,20 @@ Proof.
            apply next_delay_ok. exact I3.
     + constructor; simpl; auto; try discriminate.
   - destruct (nth_error (conns s) j) as [[| | |]|] eqn:En; try exact HI.
-    constructor; simpl; auto. intro Hp. destruct (I5 Hp) as [Hd Ho]. split; [exact Hd|].
-    unfold open_count in *. simpl. rewrite (filter_set_nth_reg j (conns s) En). exact Ho.
+    destruct (done s) eqn:Ed.
+    + (* the server is closed: the handler ends the connection *)
+      set (cs := set_nth j CClosedByServer (conns s)).
+      assert (Hlen := filter_set_nth_end j (conns s) CSpawned CClosedByServer En eq_refl eq_refl).
+      fold cs in Hlen.
+      destruct (sd_pending s) eqn:Ep; simpl.
+      * unfold open_count at 1. simpl. fold cs.
+        destruct (List.length (filter is_open cs) =? 0)%nat eqn:Eo; simpl.
+        -- constructor; simpl; auto; try discriminate.
+        -- constructor; simpl; auto. intros _. split; [reflexivity|].
+           apply Nat.eqb_neq in Eo. unfold open_count. simpl. fold cs. lia.
+      * constructor; simpl; auto; try discriminate.
+    + constructor; simpl; auto. intro Hp. destruct (I5 Hp) as [Hd Ho]. split; [exact Hd|].
+      unfold open_count in *. simpl. rewrite (filter_set_nth_reg j (conns s) En). exact Ho.
   - destruct (done s) eqn:Ed; simpl; [exact HI|].
     unfold stop_serve. destruct (serving s); simpl;
       (constructor; simpl; auto; try discriminate;
@@ -206,14 +254,32 @@ Theorem shutdown_pending_step s o :
       end
   | OClose | OShutdown => b = BRet RServerClosed /\ s' = s
   | OAccept _ => b = BSkip /\ s' = s
-  | ORegister _ => (b = BNone \/ b = BSkip) /\ sd_pending s' = true /\ open_count s' = open_count s
+  | ORegister k =>
+      (* done is set: the handler ends the connection instead of serving it *)
+      match nth_error (conns s) k with
+      | Some CSpawned =>
+          nth_error (conns s') k = Some CClosedByServer /\
+          if (open_count s =? 1)%nat
+          then b = BShutdownRet RNil /\ sd_pending s' = false /\ open_count s' = 0%nat
+          else b = BNone /\ sd_pending s' = true /\ S (open_count s') = open_count s
+      | _ => b = BSkip /\ s' = s
+      end
   end.
 Proof.
   intros HI Hp. destruct (inv_pending s HI Hp) as [Hd Ho].
   destruct o as [r | j | | | k |]; simpl.
   - rewrite (inv_lis s HI), Hd, andb_false_r. split; reflexivity.
-  - destruct (nth_error (conns s) j) as [[| | |]|] eqn:En; simpl; repeat split; auto.
-    unfold open_count; simpl. apply filter_set_nth_reg. exact En.
+  - destruct (nth_error (conns s) j) as [[| | |]|] eqn:En; try (split; reflexivity).
+    assert (Hlen := filter_set_nth_end j (conns s) CSpawned CClosedByServer En eq_refl eq_refl).
+    rewrite Hd, Hp. simpl. unfold open_count in *. simpl.
+    destruct (List.length (filter is_open (set_nth j CClosedByServer (conns s))) =? 0)%nat eqn:E0.
+    + apply Nat.eqb_eq in E0. rewrite Hlen, E0. simpl. repeat split; auto.
+      apply nth_error_set_nth_same. rewrite En. discriminate.
+    + apply Nat.eqb_neq in E0.
+      destruct (List.length (filter is_open (conns s)) =? 1)%nat eqn:E1.
+      * apply Nat.eqb_eq in E1. lia.
+      * simpl. repeat split; auto.
+        apply nth_error_set_nth_same. rewrite En. discriminate.
   - rewrite Hd. split; reflexivity.
   - rewrite Hd. split; reflexivity.
   - destruct (nth_error (conns s) k) as [[| | |]|] eqn:En; try (split; reflexivity).
@@ -236,7 +302,8 @@ Lemma no_report_when_not_pending s o :
 Proof.
   intros HI Hd Hp. destruct o as [r | j | | | k |]; simpl.
   - rewrite (inv_lis s HI), Hd, andb_false_r. simpl. repeat split; auto; discriminate.
-  - destruct (nth_error (conns s) j) as [[| | |]|]; simpl; repeat split; auto; discriminate.
+  - destruct (nth_error (conns s) j) as [[| | |]|]; simpl; try (repeat split; auto; discriminate).
+    rewrite Hd, Hp. simpl. repeat split; auto; discriminate.
   - rewrite Hd. simpl. repeat split; auto; discriminate.
   - rewrite Hd. simpl. repeat split; auto; discriminate.
   - destruct (nth_error (conns s) k) as [[| | |]|]; simpl; try (repeat split; auto; discriminate).
@@ -246,6 +313,38 @@ Qed.
 
 Fixpoint has_expire (l : list op) : bool :=
   match l with [] => false | OExpire :: _ => true | _ :: r => has_expire r end.
+
+(* once the blocked Shutdown has returned nil (nothing open, nothing
+   pending), nothing is reported any more *)
+Lemma shutdown_returned_rest l :
+  forall s, Inv s -> done s = true -> sd_pending s = false ->
+  open_count s = 0%nat -> has_expire l = false ->
+  sd_pending (run_st s l) = false /\ open_count (run_st s l) = 0%nat /\
+  forall r, ~ In (BShutdownRet r) (snd (run s l)).
+Proof.
+  induction l as [|o0 l0 IH0]; intros s0 HI0 Hd0 Hp0 Ho0 He0.
+  - simpl. repeat split; auto.
+  - rewrite run_st_cons, run_cons. cbn [snd fst].
+    destruct (no_report_when_not_pending s0 o0 HI0 Hd0 Hp0) as (P1 & P2 & P3).
+    assert (Ho1 : open_count (fst (step s0 o0)) = 0%nat).
+    { destruct o0 as [r0 | j0 | | | k0 |]; simpl.
+      - rewrite (inv_lis s0 HI0), Hd0, andb_false_r. exact Ho0.
+      - destruct (nth_error (conns s0) j0) as [[| | |]|] eqn:Ej0; try exact Ho0.
+        exfalso.
+        assert (Hl := filter_set_nth_end j0 (conns s0) CSpawned CClosedByServer Ej0 eq_refl eq_refl).
+        unfold open_count in Ho0. lia.
+      - rewrite Hd0. exact Ho0.
+      - rewrite Hd0. exact Ho0.
+      - destruct (nth_error (conns s0) k0) as [[| | |]|] eqn:En0; try exact Ho0.
+        exfalso. assert (Hl := filter_set_nth_open k0 (conns s0) En0).
+        unfold open_count in Ho0. lia.
+      - rewrite Hp0. exact Ho0. }
+    assert (He1 : has_expire l0 = false).
+    { destruct o0; simpl in He0; try exact He0. discriminate He0. }
+    destruct (IH0 (fst (step s0 o0)) (step_inv s0 o0 HI0) (step_done s0 o0 Hd0) P1 Ho1 He1)
+      as (Q1 & Q2 & Q3).
+    repeat split; auto. intros r [F | F]; [exact (P2 r F) | exact (Q3 r F)].
+Qed.
 
 (* as long as the context does not expire, a blocked Shutdown waits while a
    connection is active and returns nil as soon as none is *)
@@ -262,76 +361,60 @@ Proof.
   - rewrite run_st_cons, run_cons. cbn [snd fst].
     assert (HS := shutdown_pending_step s o HI Hp). cbv zeta in HS.
     assert (HI' := step_inv s o HI).
+    assert (Hd' : done (fst (step s o)) = true).
+    { apply step_done. exact (proj1 (inv_pending s HI Hp)). }
+    (* the three shapes a step can have while Shutdown is blocked *)
+    assert (Hsame : snd (step s o) <> BShutdownRet RCtxErr -> snd (step s o) <> BShutdownRet RNil ->
+                    fst (step s o) = s -> has_expire l = false ->
+      ~ In (BShutdownRet RCtxErr) (snd (step s o) :: snd (run (fst (step s o)) l)) /\
+      ((sd_pending (run_st (fst (step s o)) l) = true /\ (open_count (run_st (fst (step s o)) l) > 0)%nat /\
+        ~ In (BShutdownRet RNil) (snd (step s o) :: snd (run (fst (step s o)) l))) \/
+       (sd_pending (run_st (fst (step s o)) l) = false /\ open_count (run_st (fst (step s o)) l) = 0%nat /\
+        In (BShutdownRet RNil) (snd (step s o) :: snd (run (fst (step s o)) l))))).
+    { intros Hb1 Hb2 Hs He'. rewrite Hs.
+      destruct (IH s HI Hp He') as [N1 N2]. split.
+      - intros [F | F]; [exact (Hb1 F) | exact (N1 F)].
+      - destruct N2 as [(A & B & C) | (A & B & C)]; [left | right]; repeat split; auto.
+        + intros [F | F]; [exact (Hb2 F) | exact (C F)].
+        + right. exact C. }
+    assert (Hgo : snd (step s o) = BNone -> sd_pending (fst (step s o)) = true -> has_expire l = false ->
+      ~ In (BShutdownRet RCtxErr) (snd (step s o) :: snd (run (fst (step s o)) l)) /\
+      ((sd_pending (run_st (fst (step s o)) l) = true /\ (open_count (run_st (fst (step s o)) l) > 0)%nat /\
+        ~ In (BShutdownRet RNil) (snd (step s o) :: snd (run (fst (step s o)) l))) \/
+       (sd_pending (run_st (fst (step s o)) l) = false /\ open_count (run_st (fst (step s o)) l) = 0%nat /\
+        In (BShutdownRet RNil) (snd (step s o) :: snd (run (fst (step s o)) l))))).
+    { intros Hb Hs He'. rewrite Hb.
+      destruct (IH _ HI' Hs He') as [N1 N2]. split.
+      - intros [F | F]; [discriminate F | exact (N1 F)].
+      - destruct N2 as [(A & B & C) | (A & B & C)]; [left | right]; repeat split; auto.
+        + intros [F | F]; [discriminate F | exact (C F)].
+        + right. exact C. }
+    assert (Hret : snd (step s o) = BShutdownRet RNil -> sd_pending (fst (step s o)) = false ->
+                   open_count (fst (step s o)) = 0%nat -> has_expire l = false ->
+      ~ In (BShutdownRet RCtxErr) (snd (step s o) :: snd (run (fst (step s o)) l)) /\
+      ((sd_pending (run_st (fst (step s o)) l) = true /\ (open_count (run_st (fst (step s o)) l) > 0)%nat /\
+        ~ In (BShutdownRet RNil) (snd (step s o) :: snd (run (fst (step s o)) l))) \/
+       (sd_pending (run_st (fst (step s o)) l) = false /\ open_count (run_st (fst (step s o)) l) = 0%nat /\
+        In (BShutdownRet RNil) (snd (step s o) :: snd (run (fst (step s o)) l))))).
+    { intros Hb Hs Ho He'. rewrite Hb.
+      destruct (shutdown_returned_rest l _ HI' Hd' Hs Ho He') as (Q1 & Q2 & Q3).
+      split.
+      - intros [F | F]; [discriminate F | exact (Q3 _ F)].
+      - right. repeat split; auto. left. reflexivity. }
     destruct o as [r | j | | | k |]; simpl in He; try discriminate He.
-    + destruct HS as [Hb Hs]. rewrite Hb, Hs in *.
-      destruct (IH s HI Hp He) as [N1 N2]. split.
-      * intros [F | F]; [discriminate F | exact (N1 F)].
-      * destruct N2 as [(A & B & C) | (A & B & C)]; [left | right]; repeat split; auto.
-        -- intros [F | F]; [discriminate F | exact (C F)].
-        -- right. exact C.
-    + destruct HS as (Hb & Hs & Ho).
-      destruct (IH _ HI' Hs He) as [N1 N2]. split.
-      * intros [F | F]; [destruct Hb as [Hb | Hb]; rewrite Hb in F; discriminate F | exact (N1 F)].
-      * destruct N2 as [(A & B & C) | (A & B & C)]; [left | right]; repeat split; auto.
-        -- intros [F | F]; [destruct Hb as [Hb | Hb]; rewrite Hb in F; discriminate F | exact (C F)].
-        -- right. exact C.
-    + destruct HS as [Hb Hs]. rewrite Hb, Hs in *.
-      destruct (IH s HI Hp He) as [N1 N2]. split.
-      * intros [F | F]; [discriminate F | exact (N1 F)].
-      * destruct N2 as [(A & B & C) | (A & B & C)]; [left | right]; repeat split; auto.
-        -- intros [F | F]; [discriminate F | exact (C F)].
-        -- right. exact C.
-    + destruct HS as [Hb Hs]. rewrite Hb, Hs in *.
-      destruct (IH s HI Hp He) as [N1 N2]. split.
-      * intros [F | F]; [discriminate F | exact (N1 F)].
-      * destruct N2 as [(A & B & C) | (A & B & C)]; [left | right]; repeat split; auto.
-        -- intros [F | F]; [discriminate F | exact (C F)].
-        -- right. exact C.
+    + destruct HS as [Hb Hs]. apply Hsame; auto; rewrite Hb; discriminate.
+    + destruct (nth_error (conns s) j) as [[| | |]|] eqn:En.
+      2-5: destruct HS as [Hb Hs]; apply Hsame; auto; rewrite Hb; discriminate.
+      destruct HS as [_ HS]. destruct (open_count s =? 1)%nat eqn:E1.
+      * destruct HS as (Hb & Hs & Ho). apply Hret; auto.
+      * destruct HS as (Hb & Hs & Ho). apply Hgo; auto.
+    + destruct HS as [Hb Hs]. apply Hsame; auto; rewrite Hb; discriminate.
+    + destruct HS as [Hb Hs]. apply Hsame; auto; rewrite Hb; discriminate.
     + destruct (nth_error (conns s) k) as [[| | |]|] eqn:En.
-      1,3-5: destruct HS as [Hb Hs]; rewrite Hb, Hs in *;
-        destruct (IH s HI Hp He) as [N1 N2]; (split;
-        [ intros [F | F]; [discriminate F | exact (N1 F)]
-        | destruct N2 as [(A & B & C) | (A & B & C)]; [left | right]; repeat split; auto;
-          [ intros [F | F]; [discriminate F | exact (C F)] | right; exact C ] ]).
+      1,3-5: destruct HS as [Hb Hs]; apply Hsame; auto; rewrite Hb; discriminate.
       destruct (open_count s =? 1)%nat eqn:E1.
-      * destruct HS as (Hb & Hs & Ho). rewrite Hb.
-        (* returned nil; afterwards nothing is reported *)
-        assert (Hd' : done (fst (step s (OFinish k))) = true).
-        { apply step_done. exact (proj1 (inv_pending s HI Hp)). }
-        assert (Hrest : forall l0 s0, Inv s0 -> done s0 = true -> sd_pending s0 = false ->
-                  open_count s0 = 0%nat -> has_expire l0 = false ->
-                  sd_pending (run_st s0 l0) = false /\ open_count (run_st s0 l0) = 0%nat /\
-                  forall r, ~ In (BShutdownRet r) (snd (run s0 l0))).
-        { clear. induction l0 as [|o0 l0 IH0]; intros s0 HI0 Hd0 Hp0 Ho0 He0.
-          - simpl. repeat split; auto.
-          - rewrite run_st_cons, run_cons. cbn [snd fst].
-            destruct (no_report_when_not_pending s0 o0 HI0 Hd0 Hp0) as (P1 & P2 & P3).
-            assert (Ho1 : open_count (fst (step s0 o0)) = 0%nat).
-            { destruct o0 as [r0 | j0 | | | k0 |]; simpl.
-              - rewrite (inv_lis s0 HI0), Hd0, andb_false_r. exact Ho0.
-              - destruct (nth_error (conns s0) j0) as [[| | |]|] eqn:Ej0; try exact Ho0.
-                unfold open_count in *. simpl. rewrite (filter_set_nth_reg j0 (conns s0) Ej0). exact Ho0.
-              - rewrite Hd0. exact Ho0.
-              - rewrite Hd0. exact Ho0.
-              - destruct (nth_error (conns s0) k0) as [[| | |]|] eqn:En0; try exact Ho0.
-                exfalso. assert (Hl := filter_set_nth_open k0 (conns s0) En0).
-                unfold open_count in Ho0. lia.
-              - rewrite Hp0. exact Ho0. }
-            assert (He1 : has_expire l0 = false).
-            { destruct o0; simpl in He0; try exact He0. discriminate He0. }
-            destruct (IH0 (fst (step s0 o0)) (step_inv s0 o0 HI0) (step_done s0 o0 Hd0) P1 Ho1 He1)
-              as (Q1 & Q2 & Q3).
-            repeat split; auto. intros r [F | F]; [exact (P2 r F) | exact (Q3 r F)]. }
-        destruct (Hrest l _ HI' Hd' Hs Ho He) as (Q1 & Q2 & Q3).
-        split.
-        -- intros [F | F]; [discriminate F | exact (Q3 _ F)].
-        -- right. repeat split; auto. left. reflexivity.
-      * destruct HS as (Hb & Hs & Ho). rewrite Hb.
-        destruct (IH _ HI' Hs He) as [N1 N2]. split.
-        -- intros [F | F]; [discriminate F | exact (N1 F)].
-        -- destruct N2 as [(A & B & C) | (A & B & C)]; [left | right]; repeat split; auto.
-           ++ intros [F | F]; [discriminate F | exact (C F)].
-           ++ right. exact C.
+      * destruct HS as (Hb & Hs & Ho). apply Hret; auto.
+      * destruct HS as (Hb & Hs & Ho). apply Hgo; auto.
 Qed.
 
 (* ---- Accept errors ---- *)
@@ -378,7 +461,8 @@ Proof.
                   delay (fst (step s (ORegister j))) = delay s /\
                   sleeps (fst (step s (ORegister j))) = sleeps s /\
                   forall r, snd (step s (ORegister j)) <> BServeRet r).
-      { simpl. destruct (nth_error (conns s) j) as [[| | |]|]; simpl; repeat split; discriminate. }
+      { simpl. rewrite Hd.
+        destruct (nth_error (conns s) j) as [[| | |]|]; simpl; repeat split; discriminate. }
       destruct E as (E1 & E2 & E3 & E4 & E5).
       assert (HI' := step_inv s (ORegister j) HI).
       assert (Hs' : serving (fst (step s (ORegister j))) = true) by (rewrite E1; exact Hs).
@@ -571,11 +655,243 @@ Example life_example_close :
   = [CFinished; CClosedByServer].
 Proof. split; reflexivity. Qed.
 
-(* OBSERVATION (not covered by C20_close_once, which speaks about the
-   REGISTERED connections): Server.Close between Accept's return and the
-   handler's registration misses the connection; it is then registered and
-   served as if nothing had happened, although the server is closed. *)
-Example close_misses_unregistered :
+(* ---- Close ends EVERY connection, including one in the window between
+   Accept's return and its handler's registration (DESIGN F28, repaired) ---- *)
+
+(* the server has been closed by Close: done is set and no connection is
+   registered-and-served *)
+Definition closed_state (s : st) : Prop :=
+  done s = true /\ Forall (fun c => c <> COpen) (conns s).
+
+(* what one operation does to the connections of a stopped server *)
+Lemma stopped_step_conns s o :
+  Inv s -> done s = true ->
+  let s' := fst (step s o) in
+  List.length (conns s') = List.length (conns s) /\
+  forall j, nth_error (conns s') j =
+    match o with
+    | ORegister k =>
+        if (j =? k)%nat then
+          match nth_error (conns s) j with
+          | Some CSpawned => Some CClosedByServer
+          | x => x
+          end
+        else nth_error (conns s) j
+    | OFinish k =>
+        if (j =? k)%nat then
+          match nth_error (conns s) j with
+          | Some COpen => Some CFinished
+          | x => x
+          end
+        else nth_error (conns s) j
+    | _ => nth_error (conns s) j
+    end.
+Proof.
+  intros HI Hd. destruct o as [r | k | | | k |]; simpl.
+  - rewrite (inv_lis s HI), Hd, andb_false_r. split; reflexivity.
+  - rewrite Hd. destruct (nth_error (conns s) k) as [[| | |]|] eqn:En.
+    2-5: split; [reflexivity|]; intro j; cbn [fst]; destruct (j =? k)%nat eqn:Ej;
+         [apply Nat.eqb_eq in Ej; subst j; rewrite En|]; reflexivity.
+    assert (G : List.length (set_nth k CClosedByServer (conns s)) = List.length (conns s) /\
+                forall j, nth_error (set_nth k CClosedByServer (conns s)) j =
+                  if (j =? k)%nat then
+                    match nth_error (conns s) j with Some CSpawned => Some CClosedByServer | x => x end
+                  else nth_error (conns s) j).
+    { split; [apply set_nth_length|]. intro j. destruct (j =? k)%nat eqn:Ej.
+      - apply Nat.eqb_eq in Ej. subst j. rewrite En. apply nth_error_set_nth_same.
+        rewrite En. discriminate.
+      - apply Nat.eqb_neq in Ej. apply nth_error_set_nth_other. exact Ej. }
+    destruct (sd_pending s && _); simpl; exact G.
+  - rewrite Hd. split; reflexivity.
+  - rewrite Hd. split; reflexivity.
+  - destruct (nth_error (conns s) k) as [[| | |]|] eqn:En.
+    1,3-5: split; [reflexivity|]; intro j; cbn [fst]; destruct (j =? k)%nat eqn:Ej;
+           [apply Nat.eqb_eq in Ej; subst j; rewrite En|]; reflexivity.
+    assert (G : List.length (set_nth k CFinished (conns s)) = List.length (conns s) /\
+                forall j, nth_error (set_nth k CFinished (conns s)) j =
+                  if (j =? k)%nat then
+                    match nth_error (conns s) j with Some COpen => Some CFinished | x => x end
+                  else nth_error (conns s) j).
+    { split; [apply set_nth_length|]. intro j. destruct (j =? k)%nat eqn:Ej.
+      - apply Nat.eqb_eq in Ej. subst j. rewrite En. apply nth_error_set_nth_same.
+        rewrite En. discriminate.
+      - apply Nat.eqb_neq in Ej. apply nth_error_set_nth_other. exact Ej. }
+    destruct (sd_pending s && _); simpl; exact G.
+  - destruct (sd_pending s); split; reflexivity.
+Qed.
+
+Lemma Forall_nth_error {A} (P : A -> Prop) (l : list A) :
+  (forall j c, nth_error l j = Some c -> P c) <-> Forall P l.
+Proof.
+  split.
+  - intro H. apply Forall_forall. intros c Hc. destruct (In_nth_error l c Hc) as [j Hj].
+    exact (H j c Hj).
+  - intros H j c Hj. rewrite Forall_forall in H. apply H. exact (nth_error_In l j Hj).
+Qed.
+
+(* once the server is stopped (Close OR Shutdown), no connection is taken
+   into service any more: a connection that is served afterwards was served
+   before *)
+Theorem no_service_after_stop s o j :
+  Inv s -> done s = true ->
+  nth_error (conns (fst (step s o))) j = Some COpen -> nth_error (conns s) j = Some COpen.
+Proof.
+  intros HI Hd H. destruct (stopped_step_conns s o HI Hd) as [_ Hn]. rewrite Hn in H.
+  destruct o as [r | k | | | k |]; try exact H.
+  - destruct (j =? k)%nat; [|exact H].
+    destruct (nth_error (conns s) j) as [[| | |]|]; try exact H; discriminate H.
+  - destruct (j =? k)%nat; [|exact H].
+    destruct (nth_error (conns s) j) as [[| | |]|]; try exact H; discriminate H.
+Qed.
+
+Theorem C20_no_service_after_stop_lemma s o j :
+  reachable s -> done s = true ->
+  nth_error (conns (fst (step s o))) j = Some COpen -> nth_error (conns s) j = Some COpen.
+Proof. intro Hr. apply no_service_after_stop. apply reachable_inv. exact Hr. Qed.
+
+Lemma closed_state_step s o : Inv s -> closed_state s -> closed_state (fst (step s o)).
+Proof.
+  intros HI [Hd Hc]. split; [apply step_done; exact Hd|].
+  apply Forall_nth_error. intros j c Hj Ec. subst c.
+  apply (no_service_after_stop s o j HI Hd) in Hj.
+  rewrite <- Forall_nth_error in Hc. exact (Hc j COpen Hj eq_refl).
+Qed.
+
+Lemma closed_state_run l : forall s, Inv s -> closed_state s -> closed_state (run_st s l).
+Proof.
+  induction l as [|o l IH]; intros s HI Hc; [exact Hc|].
+  rewrite run_st_cons. apply IH; [apply step_inv; exact HI | apply closed_state_step; assumption].
+Qed.
+
+(* in a closed state a connection that has ended stays as it is ... *)
+Lemma closed_state_ended_stays l : forall s j c,
+  Inv s -> closed_state s -> nth_error (conns s) j = Some c -> is_open c = false ->
+  nth_error (conns (run_st s l)) j = Some c.
+Proof.
+  induction l as [|o l IH]; intros s j c HI Hc Hj Ho; [exact Hj|].
+  rewrite run_st_cons. apply IH; [apply step_inv; exact HI | apply closed_state_step; assumption | | exact Ho].
+  destruct (stopped_step_conns s o HI (proj1 Hc)) as [_ Hn]. rewrite Hn.
+  destruct o as [r | k | | | k |]; try exact Hj.
+  - destruct (j =? k)%nat; [|exact Hj]. rewrite Hj. destruct c; try reflexivity; discriminate Ho.
+  - destruct (j =? k)%nat; [|exact Hj]. rewrite Hj. destruct c; try reflexivity; discriminate Ho.
+Qed.
+
+(* ... no connection is added, and a connection whose handler runs ends *)
+Lemma closed_state_length l : forall s,
+  Inv s -> closed_state s -> List.length (conns (run_st s l)) = List.length (conns s).
+Proof.
+  induction l as [|o l IH]; intros s HI Hc; [reflexivity|].
+  rewrite run_st_cons. rewrite IH; [| apply step_inv; exact HI | apply closed_state_step; assumption].
+  exact (proj1 (stopped_step_conns s o HI (proj1 Hc))).
+Qed.
+
+Lemma closed_state_registered_ends l : forall s j c,
+  Inv s -> closed_state s -> In (ORegister j) l ->
+  nth_error (conns (run_st s l)) j = Some c -> is_open c = false.
+Proof.
+  induction l as [|o l IH]; intros s j c HI Hc Hin Hj; [destruct Hin|].
+  rewrite run_st_cons in Hj.
+  assert (HI' := step_inv s o HI). assert (Hc' := closed_state_step s o HI Hc).
+  destruct Hin as [-> | Hin]; [|exact (IH _ j c HI' Hc' Hin Hj)].
+  (* the handler of connection j runs now *)
+  destruct (stopped_step_conns s (ORegister j) HI (proj1 Hc)) as [Hlen Hn].
+  specialize (Hn j). rewrite Nat.eqb_refl in Hn.
+  destruct (nth_error (conns (fst (step s (ORegister j)))) j) as [c1|] eqn:E1.
+  - assert (Ho1 : is_open c1 = false).
+    { destruct (nth_error (conns s) j) as [[| | |]|] eqn:E0; inversion Hn; try reflexivity.
+      exfalso. destruct Hc as [_ Hf]. rewrite <- Forall_nth_error in Hf. exact (Hf j COpen E0 eq_refl). }
+    rewrite (closed_state_ended_stays l _ j c1 HI' Hc' E1 Ho1) in Hj. inversion Hj; subst c. exact Ho1.
+  - (* no such connection: none appears later *)
+    exfalso. apply nth_error_None in E1.
+    assert (Hl := closed_state_length l _ HI' Hc').
+    assert (Hs : nth_error (conns (run_st (fst (step s (ORegister j))) l)) j <> None) by (rewrite Hj; discriminate).
+    apply nth_error_Some in Hs. lia.
+Qed.
+
+Lemma open_count_zero s :
+  (forall j c, nth_error (conns s) j = Some c -> is_open c = false) -> open_count s = 0%nat.
+Proof.
+  unfold open_count. intro H. apply Forall_nth_error in H.
+  induction H as [|c l Hc _ IH]; [reflexivity|]. simpl. rewrite Hc. exact IH.
+Qed.
+
+(* Close ends every connection, whatever the order of Close and the
+   registrations.  For every operation sequence l1 from init that leaves the
+   server open, Close, and every continuation l2:
+   (1) nothing is accepted any more;
+   (2) NO connection is ever (again) registered and served - in particular
+       not one whose handler was spawned before Close and registers after it;
+   (3) a connection that was registered when Close ran is ended by Close, a
+       connection in the window is ended as soon as its handler runs, and
+       both stay ended;
+   (4) once every handler spawned before Close has run, nothing is open
+       (no handler goroutine is left: s.wg is at zero). *)
+Theorem C20_close_ends_every_connection_lemma l1 l2 :
+  let s := run_st init l1 in
+  done s = false ->
+  let s' := run_st (fst (step s OClose)) l2 in
+  List.length (conns s') = List.length (conns s) /\
+  Forall (fun c => c <> COpen) (conns s') /\
+  (forall k c, nth_error (conns s') k = Some c ->
+     nth_error (conns s) k <> Some CSpawned \/ In (ORegister k) l2 ->
+     is_open c = false) /\
+  ((forall k, nth_error (conns s) k = Some CSpawned -> In (ORegister k) l2) ->
+   open_count s' = 0%nat).
+Proof.
+  intros s Hd s'.
+  assert (HI : Inv s) by (apply run_inv; apply inv_init).
+  destruct (close_first s HI Hd) as (_ & Hd1 & _ & _ & _ & _ & Hcs & Hno).
+  set (s1 := fst (step s OClose)) in *.
+  assert (HI1 : Inv s1) by (apply step_inv; exact HI).
+  assert (Hc1 : closed_state s1) by (split; assumption).
+  assert (P3 : forall k c, nth_error (conns s') k = Some c ->
+     nth_error (conns s) k <> Some CSpawned \/ In (ORegister k) l2 -> is_open c = false).
+  { intros k c Hk [Hns | Hin]; [|exact (closed_state_registered_ends l2 s1 k c HI1 Hc1 Hin Hk)].
+    (* ended by Close itself *)
+    destruct (nth_error (conns s1) k) as [c1|] eqn:E1.
+    - assert (Ho1 : is_open c1 = false).
+      { rewrite Hcs in E1. unfold close_all in E1. rewrite nth_error_map in E1.
+        destruct (nth_error (conns s) k) as [[| | |]|]; inversion E1; try reflexivity.
+        exfalso. apply Hns. reflexivity. }
+      unfold s' in Hk. rewrite (closed_state_ended_stays l2 s1 k c1 HI1 Hc1 E1 Ho1) in Hk.
+      inversion Hk; subst c. exact Ho1.
+    - exfalso. apply nth_error_None in E1.
+      assert (Hl := closed_state_length l2 s1 HI1 Hc1).
+      assert (Hs : nth_error (conns s') k <> None) by (rewrite Hk; discriminate).
+      apply nth_error_Some in Hs. unfold s' in Hs. lia. }
+  split.
+  { unfold s'. rewrite (closed_state_length l2 s1 HI1 Hc1), Hcs. unfold close_all. apply map_length. }
+  split; [exact (proj2 (closed_state_run l2 s1 HI1 Hc1))|].
+  split; [exact P3|].
+  intro Hall. apply open_count_zero. intros j c Hj. apply (P3 j c Hj).
+  destruct (nth_error (conns s) j) as [[| | |]|] eqn:E; try (left; discriminate).
+  right. apply Hall. exact E.
+Qed.
+
+(* the window itself: whatever was accepted before, a connection accepted
+   immediately before Close is closed by the server when its handler runs -
+   it is never registered, greeted or served (before the repair:
+   conns = [COpen] on a closed server) *)
+Example close_ends_unregistered :
   let s := run_st init [OAccept AConn; OClose; ORegister 0] in
-  done s = true /\ serve_ret s = Some RNil /\ conns s = [COpen].
+  done s = true /\ serve_ret s = Some RNil /\ conns s = [CClosedByServer] /\ open_count s = 0%nat.
+Proof. repeat split. Qed.
+
+(* likewise for Shutdown, which "stops accepting": the connection in the
+   window is ended by its handler, and that releases the blocked Shutdown *)
+Example shutdown_ends_unregistered :
+  snd (run init [OAccept AConn; ORegister 0; OAccept AConn; OShutdown; ORegister 1; OFinish 0]) =
+  [BAccepted; BNone; BAccepted; BPending; BNone; BShutdownRet RNil] /\
+  snd (run init [OAccept AConn; OShutdown; ORegister 0]) = [BAccepted; BPending; BShutdownRet RNil] /\
+  conns (run_st init [OAccept AConn; OShutdown; ORegister 0]) = [CClosedByServer].
+Proof. repeat split. Qed.
+
+(* non-vacuity of C20_close_ends_every_connection_lemma: two registered
+   connections and two in the window, one of whose handlers has run *)
+Example close_ends_every_connection_example :
+  let l1 := [OAccept AConn; ORegister 0; OAccept AConn; OAccept AConn; ORegister 2; OAccept AConn] in
+  done (run_st init l1) = false /\
+  conns (run_st init l1) = [COpen; CSpawned; COpen; CSpawned] /\
+  conns (run_st (fst (step (run_st init l1) OClose)) [ORegister 3; OFinish 0; OAccept AConn])
+  = [CClosedByServer; CSpawned; CClosedByServer; CClosedByServer].
 Proof. repeat split. Qed.
